@@ -111,6 +111,11 @@ def collect_sites(project, cg=None):
                     sites.append(Site(ref, n, f"idiom:subscript-{bname}", "KeyError" if bname != "__args__" else "IndexError"))
                 elif isinstance(base, (ast.ListComp,)) or (isinstance(base, ast.Call) and call_name(base) == "list"):
                     sites.append(Site(ref, n, "idiom:index-of-built-list", "IndexError"))
+            elif isinstance(n, ast.Call) and isinstance(n.func, ast.Attribute) and n.func.attr == "to_bytes" \
+                    and not any(k.arg == "signed" or k.arg is None for k in n.keywords) and len(n.args) < 3 \
+                    and not (isinstance(n.func.value, ast.Attribute) and n.func.value.attr in ("value",)):
+                # int.to_bytes defaults to unsigned: a negative value raises OverflowError
+                sites.append(Site(ref, n, "idiom:to_bytes-unsigned", "OverflowError"))
             elif isinstance(n, ast.Assign) and isinstance(n.targets[0], ast.Tuple) and isinstance(n.value, ast.Call) \
                     and call_name(n.value) == "fields":
                 sites.append(Site(ref, n, "idiom:unpack-fields", "ValueError"))
